@@ -7,7 +7,7 @@
 #include "verif.h"
 typedef struct class_std____cxx11__basic_string vstr_t;
 typedef struct { void *p, *c; } sp_t;
-extern void *os_target, *os_target_ios; extern _Bool os_failed, os_cin_good; extern u32 os_pending, os_written; extern void *os_cin_ios;
+extern void *os_target, *os_target_ios; extern _Bool os_failed, os_cin_good; extern u32 os_fail_state; extern u32 os_pending, os_written; extern void *os_cin_ios;
 void *os_ios_of(void *os); void os_harness_write(void *os, u32 n);
 
 static _Bool o_version, o_stdin, o_tu, o_diff, o_noout, have_path, parse_ok;
@@ -65,7 +65,7 @@ int system(const char *cmd) { system_called = 1; pending_at_system = os_pending;
 
 void h_main(void)
 {
-  obj_n = 0; load_failed = loaded = system_called = wrote = 0; os_failed = 0; os_pending = 0; os_written = 0; os_target = (void *)obj_pool; os_target_ios = 0;
+  obj_n = 0; load_failed = loaded = system_called = wrote = 0; os_failed = 0; os_fail_state = 0; os_pending = 0; os_written = 0; os_target = (void *)obj_pool; os_target_ios = 0;
   tmp_stream[2] = (u64)&tmp_vt[3];
   o_version = nondet_bool(); o_stdin = nondet_bool(); o_tu = nondet_bool(); o_diff = nondet_bool(); o_noout = nondet_bool();
   have_path = nondet_bool(); parse_ok = nondet_bool(); tmp_ok = nondet_bool();
